@@ -1,12 +1,14 @@
 from .. import flow
 from ..engines_cache import CacheEngine, POLICIES
 from ..engines_loader import LoaderConc
+from ..engines_cache_adm import CacheAdmEngine
 
 # the loader's gated concurrent scenarios judge the fetch_with clause of C11 ("a fetch_with hit ...
 # no resurrection of a removed value") with the clause id C11:removed-value-returned
-ENGINES = [CacheEngine(prop="C11"), LoaderConc()]
+ENGINES = [CacheEngine(prop="C11"), LoaderConc(), CacheAdmEngine()]
 
 ASSUMPTIONS = [
+    "engine cache.adm is model-free (implementation-side monitors only) and covers the policies outside the Coq model: TinyLfu (builder default, the AdmitAndEvict path), Arc, Slru, Random; its over-capacity clause is not judged for Arc (F-20-arc-admit)",
     "K2 (operation-level) model: every API call is one atomic step; run_maintenance and the janitor's passes are steps that may occur at any point of the sequence. The sentence of C11 about CONCURRENT read-modify-writes is not covered by this model (partial).",
     "values are u64 ids, keys u64 with an identity hasher (shard = key & (n-1)); the HashMap per shard is an association list",
     "background work pinned off in D1: janitor gated 1-in-2^31, maintenance_chance 2^31 (or 1 = every insert, modelled), so maintenance happens only where the case says",
